@@ -191,7 +191,7 @@ def deliverIn (s : Srv) (to : Tok) (frm : Frm) (b : Body) : Out × Srv :=
   match to with
   | .none => (.ignored, s)                       -- unreachable: refused before
   | .zero => (.ignored, s)                       -- tree Z is never present
-  | .badNode => (.ignored, s)                    -- "No TreeNode defined in this tree here"
+  | .badNode => (.ignored, clean s .K)           -- "No TreeNode defined in this tree here": the removal the lookup cancelled is scheduled again (/repo f0195c0)
   | .done =>
     if s.doneMark then (.ignored, clean s .K)    -- finished instance: dropped, removal scheduled again
     else if s.doneLive then handOver s .K frm b
